@@ -89,6 +89,24 @@ RULES = {
 }
 
 
+BIG32_PROPS = {1, 2, 3, 6, 8, 9, 10, 11, 12, 13, 20}
+BIG32_RULE = (" | 2^24 boundary (engine big32): on 32-bit targets texts of 2^24-1 bytes or more keep their length in the heap buffer (shared by all handles) "
+              "and capacities above 2^24-2 change the allocation layout; Miri interprets the crate for i686 and for big-endian armeb while random histories push lengths "
+              "and capacities across that boundary in unique, shared and static handles. Oracles are O(1)+memcmp: every live handle == its String model after every step, "
+              "reference count == live handles pointing at the same bytes, live allocator blocks == distinct buffers, capacity rules of C11-C13, clone/static request counts")
+
+
+def big32_jobs(tier, seed):
+    quick = tier == "quick"
+    jobs = []
+    for fl, label in (("miri-i686", "miri-i686(2^24 boundary)"), ("miri-be32", "miri-armeb-be32(2^24 boundary)")):
+        for i in range(2 if quick else 8):
+            jobs.append(eng(fl, "big32", ["--cases", 7, "--steps", 30 if quick else 80, "--first-case", 7 * i, "--refuse-over", 1 << 28], 1, seed + 70 + i,
+                            weight=10, timeout=1500 if quick else 7200, label=label))
+    jobs.append(eng("native-rel", "big32", ["--shim", "shadow", "--cases", 28 if quick else 700, "--steps", 60], 2, seed + 75, weight=3, label="native-rel(2^24 boundary)"))
+    return jobs
+
+
 def sharded(flavour, engine, args, n, seed, mod=None, **kw):
     """n processes of an enumerating engine, each taking the outer cases k with k % mod == rem"""
     mod = mod or n
@@ -106,7 +124,8 @@ def plan_for(prop, tier, seed):
         p["jobs"] = explore_mix(["default", "sharing", "static", "fillcap", "errorpath"], tier, seed) + HUGE
         if quick:
             p["jobs"] += [ex("miri-i686", "default", 2, 55, 2, seed + 61, weight=10, timeout=1500, label="miri-i686"),
-                          ex("miri-be", "sharing", 2, 55, 1, seed + 62, weight=10, timeout=1500, label="miri-powerpc64-be")]
+                          ex("miri-be", "sharing", 2, 55, 1, seed + 62, weight=10, timeout=1500, label="miri-powerpc64-be"),
+                          ex("miri-be32", "default", 2, 55, 1, seed + 63, weight=10, timeout=1500, label="miri-armeb-be32")]
     elif n == 2:
         p["jobs"] = explore_mix(["sharing", "static", "errorpath", "shrink"], tier, seed) + HUGE
     elif n == 3:
@@ -286,6 +305,9 @@ def plan_for(prop, tier, seed):
         p["assumptions"] += ["the no_std configuration is exercised from a std harness binary: the crate under test is built without its std feature, which is what the property is about"]
     else:
         return None
+    if n in BIG32_PROPS:
+        p["jobs"] += big32_jobs(tier, seed)
+        p["rule"] += BIG32_RULE
     for j in p["jobs"]:
         j["args"] += ["--stat-props", str(n)]
         if n in (5, 6) and "--announce" not in j["args"]:
